@@ -174,6 +174,10 @@ def build_functions(m):
     for f in m["funcs"]:
         exec(srcs[f["name"]], ns)  # noqa: S102
         funcs[f["name"]] = ns[f["name"]]
+    for f in m["funcs"]:
+        # alias_of: the user registers ONE Python function object under two names (same body, own parameter section each)
+        if f.get("alias_of"):
+            funcs[f["name"]] = funcs[f["alias_of"]]
     return funcs
 
 
